@@ -168,35 +168,7 @@ func runC13(c *an.Ctx) {
 		}
 		// ---- R2 completeness
 		keyDeps := an.Deps(s.key)
-		var missing []string
-		for i, b := range s.binds {
-			if keyDeps[b] {
-				continue
-			}
-			// captured cell: what was stored into it
-			roots := an.Roots(b)
-			for r := range roots {
-				if keyDeps[r] {
-					continue
-				}
-				// a root that is itself a load/field of something the key depends on by the same expression
-				covered := false
-				re := an.Expr(r)
-				for d := range keyDeps {
-					if an.Expr(d) == re {
-						covered = true
-						break
-					}
-				}
-				if !covered {
-					name := "?"
-					if i < len(s.closure.FreeVars) {
-						name = s.closure.FreeVars[i].Name()
-					}
-					missing = append(missing, name+" <- "+tempName.ReplaceAllString(re, ""))
-				}
-			}
-		}
+		missing := memoMissing(s, keyDeps)
 		// relation between the key's variable part and what the closure consumes
 		s.relation = keyRelation(s, keyDeps)
 		sites[si] = s
@@ -452,4 +424,37 @@ func funcsBetweenAny(v ssa.Value, keyDeps map[ssa.Value]bool) []string {
 	}
 	walk(v, nil)
 	return best
+}
+
+// memoMissing lists captured inputs of the cached closure that the key does not depend on.
+func memoMissing(s memoSite, keyDeps map[ssa.Value]bool) []string {
+	var missing []string
+	for i, b := range s.binds {
+		if keyDeps[b] {
+			continue
+		}
+		roots := an.Roots(b)
+		for r := range roots {
+			if keyDeps[r] {
+				continue
+			}
+			covered := false
+			re := an.Expr(r)
+			for d := range keyDeps {
+				if an.Expr(d) == re {
+					covered = true
+					break
+				}
+			}
+			if !covered {
+				name := "?"
+				if i < len(s.closure.FreeVars) {
+					name = s.closure.FreeVars[i].Name()
+				}
+				missing = append(missing, name+" <- "+tempName.ReplaceAllString(re, ""))
+			}
+		}
+	}
+	sort.Strings(missing)
+	return missing
 }
